@@ -16,6 +16,7 @@ import (
 	"bytes"
 	"context"
 	"crypto/sha256"
+	"encoding/json"
 	"encoding/hex"
 	"fmt"
 	"io"
@@ -261,20 +262,49 @@ func hasArchiveExt(rel string) bool {
 // the tree.  With limits that apply recursively a FILE that is a real archive and carries an archive extension is replaced
 // by a directory <dir>/<stem> holding the nested tree (that directory itself is no entry of any archive: unlisted).
 func expectedAfter(tree []nodeSpec, recursive bool) (want map[string]nodeSpec, unlisted map[string]bool) {
+	want, unlisted, _, _ = expectedAfterFull(tree, recursive)
+	return
+}
+
+// expectedAfterFull also says whether recursive extraction must REFUSE the archive (a nested archive whose stem is "..":
+// "...zip", "...Z", ... has no directory to be expanded into; unzipNestedZipFiles answers with the malicious kind, which is
+// what confinement demands) and whether the expansion would collide with other entries (no expectation is derived then).
+// A stem "" or "." (".zip", "..zip") expands the nested archive into the directory that holds it.
+func expectedAfterFull(tree []nodeSpec, recursive bool) (want map[string]nodeSpec, unlisted map[string]bool, refuse bool, conflict bool) {
 	want, unlisted = map[string]nodeSpec{}, map[string]bool{}
+	var expand []nodeSpec
 	for _, n := range tree {
 		if recursive && !n.Dir && n.Nested != nil && hasArchiveExt(n.Rel) {
-			base := n.Rel[strings.LastIndex(n.Rel, "/")+1:]
-			stem := n.Rel[:len(n.Rel)-len(base)] + strings.TrimSuffix(base, filepath.Ext(base))
-			want[stem] = nodeSpec{Rel: stem, Dir: true}
-			unlisted[stem] = true
-			for _, m := range n.Nested {
-				m.Rel = stem + "/" + m.Rel
-				want[m.Rel] = m
-			}
+			expand = append(expand, n)
 			continue
 		}
 		want[n.Rel] = n
+	}
+	add := func(rel string, m nodeSpec) {
+		if _, ok := want[rel]; ok {
+			conflict = true
+		}
+		m.Rel = rel
+		want[rel] = m
+	}
+	for _, n := range expand {
+		base := n.Rel[strings.LastIndex(n.Rel, "/")+1:]
+		parent := n.Rel[:len(n.Rel)-len(base)] // "" or "dir/"
+		stem := strings.TrimSuffix(base, filepath.Ext(base))
+		prefix := parent + stem + "/"
+		switch stem {
+		case "..":
+			refuse = true
+			continue
+		case "", ".":
+			prefix = parent
+		default:
+			add(parent+stem, nodeSpec{Dir: true})
+			unlisted[parent+stem] = true
+		}
+		for _, m := range n.Nested {
+			add(prefix+m.Rel, m)
+		}
 	}
 	return
 }
@@ -521,6 +551,27 @@ func runRound(r *h.Run, sc scenario, emit bool) {
 		return
 	}
 	// ---- oracle (independent of the model)
+	_, _, refuseNested, conflictNested := expectedAfterFull(sc.Tree, lim != nil && lim.Recursive)
+	if conflictNested {
+		r.Count("skipped:nested-expansion-collides-with-other-entries")
+		return
+	}
+	if refuseNested {
+		// recursive extraction of a nested archive named "...<ext>": there is no directory to expand it into; the only
+		// demands are the refusal (malicious kind) and that nothing appears beside the destination
+		r.Count("round:nested-dotdot-stem:" + kind)
+		if !commonerrors.Any(err, commonerrors.ErrMalicious) {
+			r.Fail("roundtrip-nested-dotdot-not-refused", fmt.Sprintf("a nested archive whose stem is \"..\" was not refused with the malicious kind under recursive limits (result: %v)", err), sc)
+		}
+		if outside, oerr := w.dump(w.base); oerr == nil {
+			for rel := range outside {
+				if rel != "src" && rel != "a.zip" && rel != "out" && !strings.HasPrefix(rel, "src/") && !strings.HasPrefix(rel, "out/") {
+					r.Fail("roundtrip-nested-escape", fmt.Sprintf("recursive extraction created %q beside the destination", rel), sc)
+				}
+			}
+		}
+		return
+	}
 	if expectOK {
 		if err != nil {
 			r.Fail("roundtrip-unzip-error:"+kind, "Unzip of an archive produced by Zip failed: "+err.Error(), sc)
@@ -883,7 +934,7 @@ func runView(r *h.Run, sc scenario, emit bool) {
 			r.Fail("view-kind:"+a, fmt.Sprintf("IsFile(%q) = %v, %v on the %s view", p, isf, err, a), sc)
 		}
 		want := n.content()
-		for attempt := 0; attempt < 2; attempt++ {
+		for attempt := 0; attempt < 3; attempt++ {
 			b, err := v.ReadFile(p)
 			okRead := (err == nil && bytes.Equal(b, want)) || (len(want) == 0 && len(b) == 0 && (err == nil || commonerrors.Any(err, commonerrors.ErrEmpty)))
 			switch {
@@ -896,17 +947,90 @@ func runView(r *h.Run, sc scenario, emit bool) {
 			default:
 				rec("OpRead", n.Rel, "VOtherErr")
 			}
-			if okRead {
-				continue
-			}
-			if attempt == 1 && a == "tar" && len(b) == 0 {
-				r.Fail("view-reread-empty:tar", fmt.Sprintf("second ReadFile(%q) on the tar view returns no content (%v); the first returned the %d bytes of the tree", p, err, len(want)), sc)
-			} else {
+			if !okRead {
 				r.Fail("view-content:"+a, fmt.Sprintf("ReadFile(%q) #%d on the %s view = %s, %v; the tree has %s", p, attempt+1, a, short(b), err, short(want)), sc)
+			}
+		}
+		// the same content through every way of opening a handle, each twice (a handle must start at the beginning)
+		openers := []struct {
+			name string
+			open func() (io.Reader, io.Closer, error)
+		}{
+			{"GenericOpen", func() (io.Reader, io.Closer, error) { fh, e := v.GenericOpen(p); return fh, fh, e }},
+			{"OpenFile(O_RDONLY)", func() (io.Reader, io.Closer, error) { fh, e := v.OpenFile(p, os.O_RDONLY, 0o444); return fh, fh, e }},
+			{"Open", func() (io.Reader, io.Closer, error) {
+				fh, e := v.Open(p)
+				if e != nil {
+					return nil, nil, e
+				}
+				rd, _ := fh.(io.Reader)
+				return rd, fh, nil
+			}},
+		}
+		for round := 0; round < 2; round++ {
+			for _, o := range openers {
+				rd, cl, err := o.open()
+				if err != nil || rd == nil {
+					r.Fail("view-content:"+a, fmt.Sprintf("%s(%q) on the %s view fails: %v", o.name, p, a, err), sc)
+					continue
+				}
+				b, rerr := io.ReadAll(rd)
+				_ = cl.Close()
+				if rerr != nil || !bytes.Equal(b, want) {
+					r.Fail("view-content:"+a, fmt.Sprintf("reading %q through %s (pass %d, after earlier reads) on the %s view gives %s, %v; the tree has %s", p, o.name, round+1, a, short(b), rerr, short(want)), sc)
+				}
 			}
 		}
 		if sz, err := v.GetFileSize(p); err != nil || sz != int64(len(want)) {
 			r.Fail("view-size:"+a, fmt.Sprintf("GetFileSize(%q) = %d, %v on the %s view; the tree has %d bytes", p, sz, err, a, len(want)), sc)
+		}
+	}
+	// two handles on two DIFFERENT files, reads interleaved; then both files once more
+	var fa, fb *nodeSpec
+	for i := range sc.Tree {
+		n := &sc.Tree[i]
+		if !n.Dir && len(n.content()) >= 2 {
+			if fa == nil {
+				fa = n
+			} else if fb == nil {
+				fb = n
+			}
+		}
+	}
+	if fa != nil && fb != nil {
+		ha, ea := v.GenericOpen("/" + fa.Rel)
+		hb, eb := v.OpenFile("/"+fb.Rel, os.O_RDONLY, 0o444)
+		if ea == nil && eb == nil {
+			half := make([]byte, len(fa.content())/2)
+			_, e1 := io.ReadFull(ha, half)
+			allB, e2 := io.ReadAll(hb)
+			restA, e3 := io.ReadAll(ha)
+			gotA := append(append([]byte{}, half...), restA...)
+			if e1 != nil || e2 != nil || e3 != nil || !bytes.Equal(gotA, fa.content()) || !bytes.Equal(allB, fb.content()) {
+				r.Fail("view-content:"+a, fmt.Sprintf("interleaved reads of %q and %q on the %s view: %s / %s (%v %v %v); the tree has %s / %s", fa.Rel, fb.Rel, a, short(gotA), short(allB), e1, e2, e3, short(fa.content()), short(fb.content())), sc)
+			}
+			_ = ha.Close()
+			_ = hb.Close()
+			for _, n := range []*nodeSpec{fa, fb, fa} {
+				if b, err := v.ReadFile("/" + n.Rel); err != nil || !bytes.Equal(b, n.content()) {
+					r.Fail("view-content:"+a, fmt.Sprintf("ReadFile(%q) after interleaved reads on the %s view = %s, %v", n.Rel, a, short(b), err), sc)
+				}
+			}
+			// observation only: two handles on the SAME file (afero's tarfs shares one reader per entry)
+			h1, e1 := v.GenericOpen("/" + fa.Rel)
+			h2, e2 := v.GenericOpen("/" + fa.Rel)
+			if e1 == nil && e2 == nil {
+				_, _ = io.ReadFull(h1, half)
+				b2, _ := io.ReadAll(h2)
+				r1, _ := io.ReadAll(h1)
+				r.Count(fmt.Sprintf("view:same-file-two-handles-independent=%v:%s", bytes.Equal(b2, fa.content()) && bytes.Equal(append(append([]byte{}, half...), r1...), fa.content()), a))
+			}
+			if h1 != nil {
+				_ = h1.Close()
+			}
+			if h2 != nil {
+				_ = h2.Close()
+			}
 		}
 	}
 	// paths that are not in the tree
@@ -1988,7 +2112,24 @@ func smallEnough(tree []nodeSpec, maxEntries int, maxBytes int64) bool {
 	return len(tree) <= maxEntries && total <= maxBytes
 }
 
+var streamDigest = sha256.New()
+var streamCount int
+
 func runScenario(r *h.Run, sc scenario, emit bool) {
+	if b, err := json.Marshal(sc); err == nil {
+		streamDigest.Write(b)
+		streamCount++
+		if tf := os.Getenv("VERIF_C07_TRACE"); tf != "" {
+			if fh, err := os.OpenFile(tf, os.O_APPEND|os.O_CREATE|os.O_WRONLY, 0o644); err == nil {
+				sum := sha256.Sum256(b)
+				fmt.Fprintf(fh, "%d %s %s %d\n", streamCount, sc.Kind, hex.EncodeToString(sum[:6]), len(sc.Tree))
+				if os.Getenv("VERIF_C07_TRACE_FULL") != "" {
+					fmt.Fprintf(fh, "  %s\n", b)
+				}
+				_ = fh.Close()
+			}
+		}
+	}
 	switch sc.Kind {
 	case "round":
 		runRound(r, sc, emit)
@@ -2171,6 +2312,7 @@ func main() {
 		}
 		runScenario(r, scenario{Kind: "raw", Backend: be, Raw: es}, i < r.N(40, 300))
 	}
+	r.Note(fmt.Sprintf("scenario stream: %d scenarios, sha256 %s (a function of -seed, -tier and -deep only)", streamCount, hex.EncodeToString(streamDigest.Sum(nil))[:16]))
 	r.Finish()
 	_ = os.RemoveAll(scratch)
 }
